@@ -91,8 +91,18 @@ func (p *poller) addConn(c *Conn) error {
 	if err != nil {
 		p.g.connsUnix[fd] = nil
 		_ = c.closeWithError(err)
+		return err
 	}
-	return err
+	// Data written before the fd was registered (inside OnOpen, or by another
+	// goroutine that already holds the Conn) may have left a backlog; its attempt
+	// to set the writing event failed because the fd was unknown to epoll then.
+	c.mux.Lock()
+	if !c.closed && len(c.writeList) > 0 {
+		c.isWAdded = false
+		c.modWrite()
+	}
+	c.mux.Unlock()
+	return nil
 }
 
 // add the connection to poller and handle its io events.
